@@ -206,7 +206,7 @@ ADDED = {
     "C07": "Also: failed connects and link errors that are not ConnectionErrors, an AttributeError-raising message, a client whose "
            "connection subscriber does not send, eight backbone scripts (stalled stream given up and lingering in close(), stale "
            "retry during a lingering close, reset while the read task is parked inside a frame) with every event at every turn "
-           "boundary; a closed stream lingering on unsent bytes counts as held; the probe command must be exactly its own frame; "
+           "boundary; a closed stream lingering on unsent bytes counts as held; the probe command must be exactly its own frame; a message subscriber that fails 0/1/2 loop iterations after the frame next to a sibling whose reaction hits a write error, both sibling orders; "
            "the library's own 'Unhandled exception in background task' report counts as an unhandled exception.",
     "C08": "Also: API initialised late (console unreachable when init() is called), outage longer than the timeout, idling to "
            "the horizon when no timer is armed, and scripted cases of a silent AND stalled link whose close lingers 1-100 s after "
